@@ -236,7 +236,7 @@ def run_programs(cfg, programs, after_read=False, limit_ms=20000, tag="prog"):
     exe = vbuild.ensure_harness(cfg, "progrun")
     tmp = os.path.join(vbuild.BUILD, "tmp")
     os.makedirs(tmp, exist_ok=True)
-    nshards = min(vbuild.JOBS, max(1, len(programs) // 20))
+    nshards = min(vbuild.JOBS, max(1, len(programs) // 4))
     procs = []
     env = dict(os.environ)
     env.setdefault("ASAN_OPTIONS", "detect_leaks=0:abort_on_error=1")
